@@ -133,6 +133,8 @@ func runTracker(c *Case) ([]Obs, any) {
 					un.VerifTracker().VerifAge(d)
 				}
 				return Obs{OK}
+			case "istrusted": // txid : does the shared mempool consider the tx vouched for by the trusted peer
+				return Obs{OK, b2i(f.node.VerifMemPool().IsTrusted(ctx, tu.HashOf(op.Int(0))))}
 			case "tracked": // conn
 				l := trackerOf(op.Int(0)).VerifList()
 				ids := tu.IDs(l)
